@@ -239,6 +239,9 @@ def literals(e, pos=True, kind='cond'):
         return [Lit(E('>=', e.args, w=1), not pos, kind)]
     if e.op == 'call' and e.args[0] == 'bool' and len(e.args) == 2 and isinstance(e.args[1], E):
         return literals(e.args[1], pos, kind) if _is_bool(e.args[1]) else [Lit(e, pos, kind)]
+    if kind == 'cond' and e.op in ('sig', 'slice', 'param') and isinstance(e.w, int) and e.w > 1:
+        # `with m.If(wide)` tests wide != 0: the same literal as `wide != 0`, `wide.any()` and `wide.bool()`
+        return [Lit(E('==', (E('const', val=0), e), w=1), not pos, kind)]
     return [Lit(e, pos, kind)]
 
 
@@ -394,6 +397,7 @@ class ModuleIR:
         self.cfg_forks = []
         self.memories = []
         self.env = None
+        self.inlined_locals = []   # (name, definition, location) of combinational locals that were read through
 
     # ---- queries ---------------------------------------------------------------------
     def fsm_with_state(self, state):
